@@ -277,7 +277,28 @@ def rule_region_lookup(ck):
     ck.ob("cmp.region", "update_mappings/stores-sorted-ranges", len(st) == 1 and all(um.dominates(c.bb, st[0]) for c in srt) and bool(srt), "", um.loc())
 
 
+def rule_link_map_cap(ck):
+    """`sharedlib info` lists exactly the mapped objects: the walk over the dynamic linker's list is bounded (a corrupted
+    list must not hang the debugger) but the bound must stay far above any real number of loaded objects"""
+    prog = ck.prog
+    ck.rule("loop.link_maps", "Rendezvous::link_maps follows l_next until null; its only other exit is a length bound >= 4096 entries (today's value: every process with fewer objects is listed completely)")
+    f = ck.anchor("debugger::debugee::rendezvous::Rendezvous::link_maps")
+    bounds = []
+    for b, blk in enumerate(f.blocks):
+        t = blk["term"]
+        if t["t"] != "switch":
+            continue
+        e = expr_of(f, t["discr"])
+        if e[0] == "bin" and e[1] in ("Lt", "Le", "Gt", "Ge"):
+            consts = [x for x in (e[2], e[3]) if x[0] == "const"]
+            lens = [x for x in (e[2], e[3]) if x[0] == "call" and x[1].endswith("::len")]
+            if consts and lens:
+                bounds.append(consts[0][1])
+    ck.ob("loop.link_maps", "link_maps/length-bound>=4096", bool(bounds) and all(c >= 4096 for c in bounds), f"bounds {bounds}", f.loc(), what="the list of loaded objects is cut: libraries behind the cap are not registered (no breakpoints, no source lookup, missing from `sharedlib info`)")
+
+
 def run(ck):
+    rule_link_map_cap(ck)
     rule_kind(ck)
     rule_offset_owner(ck)
     rule_registry_remove(ck)
